@@ -16,7 +16,7 @@ fn values() -> Vec<Value> {
 
 fn cases(ob: &str) -> Vec<String> {
     let mut out = vec![];
-    if let Some(seed) = crate::gen::thorough_seed(ob) { for t in crate::gen::texts(seed ^ 12, 400, true) { out.push(format!("iterx:{}", crate::hex(t.as_bytes()))); } }
+    if let Some(seed) = crate::gen::thorough_seed(ob) { for t in crate::gen::texts(seed ^ 12, crate::gen::scale(ob, 400), true) { out.push(format!("iterx:{}", crate::hex(t.as_bytes()))); } }
     for (ti, _) in trivia().iter().enumerate() {
         for i in 0..values().len() {
             for j in 0..values().len() {
